@@ -58,4 +58,17 @@ if __name__ == "__main__":
     if "--replay" not in sys.argv:
         framework.COV = framework.start_coverage()
     prop = sys.argv[1]
-    framework.main(load(prop), sys.argv[2:])
+    try:
+        chk = load(prop)
+    except Exception as e:  # importing the harness module imports the implementation's public interface
+        blame = framework.implementation_fault(e)
+        if blame is None:
+            raise
+        # the implementation cannot even be imported / lacks a public name the property is stated about:
+        # no input can satisfy the property - a violation (with nothing to replay but the import), not exit 2
+        pth = framework.write_replay(prop, "violation", {"property": prop, "kind": "the implementation's public interface cannot be loaded",
+                                                         "signature": f"{prop}:crash:{type(e).__name__}", "message": blame, "case": None})
+        print(f"VIOLATION property={prop} replay={framework.relpath(pth)}")
+        print(f"  {prop}:crash:{type(e).__name__}: {blame}")
+        sys.exit(1)
+    framework.main(chk, sys.argv[2:])
